@@ -94,7 +94,11 @@ RULE = ('scenarios = op sequences on one Box object: construct via vects | avect
         'all three are positive); the unit of length swept over 2^-500 .. 2^500 (each clause wherever its quantities are doubles: squares to '
         '2^+-500, volume to 2^+-330, plane normals to 2^+-235), the oracle evaluated on the exactly rescaled cell; half-space tests exact '
         'face by face (axis-parallel normals on the grid); float32 point arrays; arrays of 10^3 .. 1.3*10^5 points against the same points in '
-        'a small array; the inclusivity flag positionally and as 0 / 1 / numpy bool. distinct = distinct canonical driver '
+        'a small array; the inclusivity flag positionally and as 0 / 1 / numpy bool. Final round: the ORDER of the keywords of every '
+        'definition (random permutation in half of all generated definitions, written literally or as a dictionary built in that order; '
+        'every family x optional subset x all permutations up to 4 keywords, random ones beyond, x Box() / set() / set_*()); cells with one of '
+        'alpha, beta, gamma 0.004 .. 2 degrees off 0 or 180 on either side, through every parameter set (set_abc, one huge LAMMPS tilt, turned '
+        'vectors). distinct = distinct canonical driver '
         'line in its scenario context; non-trivial = cell differs from the unit cell or origin != 0')
 ASSUMPTIONS = [
     'a clause is evaluated only where the quantities of its own definition are finite normal doubles (lengths and their squares: '
@@ -984,10 +988,12 @@ def apply_spec(box, spec):
                 kw[key] = np.array(kw[key])
     if via == 'family':
         return getattr(am.Box, spec['family'])(*spec['fargs'])
+    if spec.get('order'):      # the ORDER in which the keywords are written in the call / sit in the dictionary handed over
+        kw = {**{key: kw[key] for key in spec['order'] if key in kw}, **{key: v for key, v in kw.items() if key not in spec['order']}}
     if via == 'ctor':
-        return am.Box(**kw)
+        return _kw_call(am.Box, kw, spec.get('literal'))
     if via == 'set':
-        box.set(**kw)
+        _kw_call(box.set, kw, spec.get('literal'))
         return box
     meth = {'vectors': 'set_vectors', 'lengths': 'set_lengths', 'hilos': 'set_hi_los', 'abc': 'set_abc'}.get(k)
     if meth is None:          # vects has no set_* method: attribute setters
@@ -999,8 +1005,26 @@ def apply_spec(box, spec):
         last = max(i for i, nm in enumerate(order) if nm in kw)
         getattr(box, meth)(*[kw[nm] if nm in kw else POSITIONAL_DEFAULTS[nm] for nm in order[:last + 1]])
         return box
-    getattr(box, meth)(**kw)
+    _kw_call(getattr(box, meth), kw, spec.get('literal'))
     return box
+
+
+def _kw_call(f, kw, literal=False):
+    """f(**kw) — or, with `literal`, the call written out with literal keywords in the order of kw: f(k1=v1, k2=v2, ...)."""
+    if not literal or not all(isinstance(k, str) and k.isidentifier() for k in kw):
+        return f(**kw)
+    src = '_f(' + ', '.join(f'{k}=_v[{k!r}]' for k in kw) + ')'
+    return eval(src, {'_f': f, '_v': kw})      # noqa: S307  (source text built from identifiers only)
+
+
+def gen_order(rng, kw, p=0.5, p_literal=0.3):
+    """(order, literal): a random order of the keywords of one call (None = as documented), written as literal keywords or
+    handed over as a dictionary built in that order."""
+    order = None
+    if len(kw) > 1 and rng.random() < p:
+        order = list(kw)
+        rng.shuffle(order)
+    return order, rng.random() < p_literal
 
 
 # ----------------------------------------------------------------------------------------
@@ -1273,6 +1297,12 @@ def gen_spec(rng, regime, allow_left=False, kinds=None, origin=None, ints=None, 
             assign_types(rng, spec, cls=rng.choice(INT_SCALARS + ['np.float32', 'arr0-float32']), vcls=rng.choice(INT_VECTORS + ['float32-array']))
         else:                 # every argument its own type
             assign_types(rng, spec)
+    if spec.get('via') != 'family':        # (callers may still change `via`; a positional call ignores the order)
+        order, literal = gen_order(rng, spec['kw'])
+        if order:
+            spec['order'] = order
+        if literal:
+            spec['literal'] = True
     return spec
 
 
@@ -1462,7 +1492,7 @@ def gen_abc(rng, grid, ints=False):
         full = {k: (ang[k] if k in given else 90.0) for k in ang}
         ca, cb, cg = (math.cos(math.radians(full[k])) for k in ('alpha', 'beta', 'gamma'))
         extreme = any(not 15 <= full[k] <= 165 for k in full)
-        if 1 - ca * ca - cb * cb - cg * cg + 2 * ca * cb * cg > (1e-4 if extreme else 0.05):
+        if 1 - ca * ca - cb * cb - cg * cg + 2 * ca * cb * cg > (4e-9 if extreme else 0.05):
             break
     kw.update({k: ang[k] for k in given})
     return kw, None
@@ -1478,9 +1508,11 @@ def _angles(rng, ints=False):
         lim = 0.05
         if not ints and rng.random() < 0.08:      # one angle close to 0 or 180 degrees (near-degenerate, still realisable)
             ang = [90.0, 90.0, 90.0]
-            ang[rng.randrange(3)] = rng.choice([1.0, 2.0, 5.0, 10.0, 170.0, 175.0, 178.0, 179.0, rng.uniform(1, 12), rng.uniform(168, 179)])
+            ang[rng.randrange(3)] = rng.choice([1.0, 2.0, 5.0, 10.0, 170.0, 175.0, 178.0, 179.0, rng.uniform(1, 12), rng.uniform(168, 179),
+                                                # 0.004 .. 2 degrees off 0 / 180 (where an arcsin / a cosine no longer tells the two sides apart)
+                                                179.5, 0.5, 10 ** rng.uniform(-2.4, 0.3), 180.0 - 10 ** rng.uniform(-2.4, 0.3)])
             al, be, ga = ang
-            lim = 1e-4
+            lim = 4e-9
         ca, cb, cg = (math.cos(math.radians(x)) for x in (al, be, ga))
         vol2 = 1 - ca * ca - cb * cb - cg * cg + 2 * ca * cb * cg
         if vol2 > lim:
@@ -1768,7 +1800,7 @@ class _Scenario:
 
 def _short(spec):
     return {k: v for k, v in spec.items() if k in ('kind', 'via', 'kw', 'family', 'fargs', 'container', 'regime', '_ok',
-                                                   'perturbed', 'alias', 'invalid', 'ints', 'types', 'scale2')}
+                                                   'perturbed', 'alias', 'invalid', 'ints', 'types', 'scale2', 'order', 'literal')}
 
 
 def _cond(model_vects, model_recip):
@@ -2561,7 +2593,9 @@ def _oracle_box(ctx, box, spec, pts, rels, viol, after_mutation=False, light=Fal
             for j in range(3):
                 if not stored(V[i][j], Fraction(float(Vin[i][j])), big):
                     viol('construct:vects', f'Box given the vectors {[list(map(float, r)) for r in Vin]} ({spec["kind"]} via '
-                         f'{spec.get("via")}) reports vects[{i}][{j}] = {float(V[i][j])!r}, not {float(Vin[i][j])!r}{tag}')
+                         f'{spec.get("via")}' + (f', keywords {"written" if spec.get("literal") else "in a dictionary"} in the order {spec["order"]}'
+                                                  if spec.get('order') and spec.get('via') != 'positional' else '')
+                         + f') reports vects[{i}][{j}] = {float(V[i][j])!r}, not {float(Vin[i][j])!r}{tag}')
                     return
     if spec['kind'] in ('lengths', 'hilos'):
         if spec['kind'] == 'lengths':
@@ -2963,7 +2997,7 @@ def _oracle_rebuild(ctx, box, V, o, det, normal, cond, vmax, viol, tag, left=Fal
                 b2 = am.Box(xlo=box.xlo, xhi=box.xhi, ylo=box.ylo, yhi=box.yhi, zlo=box.zlo, zhi=box.zhi,
                             xy=box.xy, xz=box.xz, yz=box.yz)
             else:
-                if cond > 150:
+                if 1e-9 * cond * cond > 0.02:      # the rounding bound of this clause (u cond^2 with a generous constant, below) says nothing any more
                     continue
                 b2 = am.Box(a=box.a, b=box.b, c=box.c, alpha=box.alpha, beta=box.beta, gamma=box.gamma, origin=box.origin)
         except Exception as e:  # noqa
@@ -3417,6 +3451,209 @@ def _search_types(ctx, rng, n):
                     _run_cell(ctx, spec, [[0.25, 0.5, 0.75]], [[0.25, 0.5, 0.75]], [], light=('construct' if mask != 7 else True))
 
 
+# ----------------------------------------------------------------------------------------
+# keyword ORDER: every keyword family of Box(...) / Box.set(...) / set_*(...) called with its keywords in every order
+# ----------------------------------------------------------------------------------------
+ORDER_FAMILIES = {
+    'vects': (['vects'], ['origin']),
+    'vectors': (['avect', 'bvect', 'cvect'], ['origin']),
+    'lengths': (['lx', 'ly', 'lz'], ['xy', 'xz', 'yz', 'origin']),
+    'hilos': (['xlo', 'xhi', 'ylo', 'yhi', 'zlo', 'zhi'], ['xy', 'xz', 'yz']),
+    'abc': (['a', 'b', 'c'], ['alpha', 'beta', 'gamma', 'origin']),
+}
+
+
+def _full_definition(rng, regime, kind):
+    """a cell definition of the given family with ALL optional keywords present and pairwise different values (so that any
+    exchange of two keywords gives another cell)."""
+    g = regime == 'grid'
+    num = (lambda lo, hi: _dy(rng, lo, hi)) if g else (lambda lo, hi: rng.uniform(lo, hi))
+    for _ in range(200):
+        spec = gen_spec(rng, regime, kinds=[kind], origin=(kind != 'hilos'), nonzero_origin=True, ints=False, typed=False)
+        if spec.get('via') == 'family':
+            continue
+        kw = spec['kw']
+        for t in ('xy', 'xz', 'yz'):
+            if kind in ('lengths', 'hilos') and not kw.get(t):
+                kw[t] = rng.choice([-1, 1]) * (_pos_dy(rng, 4.0) if g else rng.uniform(0.1, 4))
+        if kind == 'abc':
+            al, be, ga = _angles(rng)
+            kw.update(alpha=al, beta=be, gamma=ga)
+        flat = [float(x) for v in kw.values() for x in (v if isinstance(v, (list, tuple)) and not isinstance(v[0], (list, tuple))
+                                                         else [y for r in v for y in r] if isinstance(v, (list, tuple)) else [v])]
+        scal = [float(v) for v in kw.values() if not isinstance(v, (list, tuple))]
+        if len(set(scal)) != len(scal):
+            continue
+        if kind == 'vectors' and len({tuple(kw[k]) for k in ('avect', 'bvect', 'cvect', 'origin')}) != 4:
+            continue
+        if not flat:
+            continue
+        spec.pop('container', None)
+        spec.pop('order', None)
+        spec.pop('literal', None)
+        return spec
+    raise RuntimeError('no full definition for ' + kind)
+
+
+def _search_keyword_orders(ctx, rng, n):
+    """One cell definition, the ORDER of its keywords varied: every keyword family (mandatory keywords + every subset of the
+    optional ones, `origin` in any position) through Box(...), Box.set(...) and the set_* method, with the keywords written
+    literally in the call and handed over as a dictionary built in that order — all permutations for up to 4 keywords, random
+    permutations beyond.  The cell is the one the NAMES say, whatever the order (construction clause, exact)."""
+    import itertools
+    for it in range(n):
+        regime = 'grid' if it % 2 == 0 else 'float'
+        for kind, (req, opt) in ORDER_FAMILIES.items():
+            full = _full_definition(rng, regime, kind)
+            masks = list(range(1 << len(opt)))
+            if len(masks) > 4 and it > 0:
+                masks = [0, len(masks) - 1] + rng.sample(masks[1:-1], 3)
+            k = rng.randrange(6)
+            for mask in masks:
+                names = req + [o for i, o in enumerate(opt) if mask >> i & 1]
+                if len(names) <= 4:
+                    perms = [list(q) for q in itertools.permutations(names)]
+                else:
+                    perms = [list(reversed(names)), names[1:] + names[:1]] + [rng.sample(names, len(names)) for _ in range(6 if kind != 'vectors' else 10)]
+                cross = kind == 'vectors' or len(names) <= 3       # every (entry point, form) for every order
+                for perm in perms:
+                    combos = [(v, lit) for v in ('ctor', 'set', 'method') for lit in (False, True)]
+                    if not cross:
+                        k += 1
+                        combos = [combos[k % 6], combos[(k * 5 + 3) % 6]]
+                    for via, lit in combos:
+                        if kind == 'vects' and via == 'method':
+                            continue
+                        spec = dict(full, kw={key: full['kw'][key] for key in names}, via=via, order=list(perm))
+                        if lit:
+                            spec['literal'] = True
+                        if rng.random() < 0.2:
+                            spec['container'] = 'array'
+                        ctx.stats.case('oracle:keyword-order', (kind, tuple(perm), via, lit, it), sample={'spec': _short(spec)})
+                        _run_cell(ctx, spec, [[0.25, 0.5, 0.75]], [[0.25, 0.5, 0.75]], [], light='construct')
+
+
+# ----------------------------------------------------------------------------------------
+# extreme cell angles: 0.004 .. 2 degrees off 0 or 180, each of alpha, beta, gamma, acute and obtuse side
+# ----------------------------------------------------------------------------------------
+EXTREME_KINDS = ['abc', 'lengths', 'hilos', 'vects', 'vectors', 'abc', 'lengths', 'vects']
+
+
+def gen_extreme(rng, regime, which, obtuse, kind):
+    """a non-degenerate right-handed cell whose angle `which` (alpha = b^c, beta = a^c, gamma = a^b) is delta or 180 - delta,
+    delta log-uniform over 0.004 .. 2 degrees (tan delta = 1 / ratio): through set_abc (the other two angles 90 / 90 or the
+    pair theta, 180 - theta resp. theta, theta that keeps the triple realisable), or a LAMMPS cell with one huge tilt
+    (lx = 200, ly = 1, xy = -100 is gamma = 179.43), given as lengths / bounds / vectors, the vectors also turned
+    (axes permuted, 180 degree turns, a generic rotation)."""
+    g = regime == 'grid'
+    s = -1.0 if obtuse else 1.0
+    via = rng.choice(['ctor', 'set', 'method', 'positional'])
+    if kind == 'abc':
+        delta = 10 ** rng.uniform(math.log10(0.004), math.log10(2.0))
+        if rng.random() < 0.25:
+            delta = rng.choice([0.5, 0.6, 0.25, 0.125, 0.01, 0.05, 1.0, 0.75])
+        x = 180.0 - delta if obtuse else delta
+        ang = {'alpha': 90.0, 'beta': 90.0, 'gamma': 90.0}
+        if rng.random() < 0.4:
+            theta = rng.choice([60.0, 75.0, 120.0, rng.uniform(30, 150)])
+            others = [k for k in ang if k != which]
+            ang[others[0]] = theta
+            ang[others[1]] = 180.0 - theta if obtuse else theta
+        ang[which] = x
+        L = (lambda: _pos_dy(rng, 8.0)) if g else (lambda: rng.uniform(1.0, 8.0))
+        kw = dict(a=L(), b=L(), c=L())
+        for k in ang:
+            if ang[k] != 90.0 or rng.random() < 0.6:
+                kw[k] = ang[k]
+        if rng.random() < 0.5:
+            kw['origin'] = [(_dy(rng, -8, 8) if g else rng.uniform(-8, 8)) for _ in range(3)]
+        spec = {'kind': 'abc', 'via': via, 'regime': 'float', 'kw': kw}
+    else:
+        if g:
+            ratio = float(rng.choice([32, 40, 64, 100, 128, 200, 256, 500, 512, 1000]))
+            h = _pos_dy(rng, 1.0)
+            P = lambda hi=8.0: _pos_dy(rng, hi)                             # noqa: E731
+            T = lambda: _dy(rng, -2, 2)                                     # noqa: E731
+        else:
+            ratio = 10 ** rng.uniform(math.log10(28.7), math.log10(14300.0))
+            h = rng.uniform(0.05, 2.0)
+            P = lambda hi=8.0: rng.uniform(0.5, hi)                         # noqa: E731
+            T = lambda: rng.uniform(-2, 2)                                  # noqa: E731
+        if which == 'gamma':
+            V = [[P(), 0.0, 0.0], [s * ratio * h, h, 0.0], [T(), T(), P()]]
+        elif which == 'beta':
+            yz = rng.choice([0.0, h / 2, -h / 2, h, -h])
+            V = [[P(), 0.0, 0.0], [T(), P(), 0.0], [s * ratio * h, yz, h]]
+        else:
+            b = [T(), P(4.0)]
+            nb = math.hypot(*b)
+            m = max(1.0, float(round(ratio * h / nb)))
+            pq = [rng.choice([0.0, h / 2, -h / 2]), rng.choice([0.0, h / 4, -h / 4])]
+            V = [[P(), 0.0, 0.0], [b[0], b[1], 0.0], [s * m * b[0] + pq[0], s * m * b[1] + pq[1], h]]
+        o = [(_dy(rng, -8, 8) if g else rng.uniform(-8, 8)) for _ in range(3)]
+        if kind == 'lengths':
+            kw = {'lx': V[0][0], 'ly': V[1][1], 'lz': V[2][2]}
+            for t, x in (('xy', V[1][0]), ('xz', V[2][0]), ('yz', V[2][1])):
+                if x != 0 or rng.random() < 0.5:
+                    kw[t] = x
+            if rng.random() < 0.6:
+                kw['origin'] = o
+        elif kind == 'hilos':
+            kw = {'xlo': o[0], 'xhi': o[0] + V[0][0], 'ylo': o[1], 'yhi': o[1] + V[1][1], 'zlo': o[2], 'zhi': o[2] + V[2][2]}
+            for t, x in (('xy', V[1][0]), ('xz', V[2][0]), ('yz', V[2][1])):
+                if x != 0 or rng.random() < 0.5:
+                    kw[t] = x
+        else:
+            r = rng.random()
+            if r < 0.3:
+                cols = rng.choice([[1, 2, 0], [2, 0, 1]])
+                V = [[row[c] for c in cols] for row in V]
+            elif r < 0.5:
+                sg = rng.choice([q for q in SIGN_PATTERNS[1:] if q[0] * q[1] * q[2] > 0])
+                V = [[x * sg[j] if x != 0 else x for j, x in enumerate(row)] for row in V]
+            elif r < 0.7 and not g:
+                np = _np()
+                Q, _ = np.linalg.qr(np.array([[rng.gauss(0, 1) for _ in range(3)] for _ in range(3)]))
+                if np.linalg.det(Q) < 0:
+                    Q[:, 0] = -Q[:, 0]
+                V = (np.array(V) @ Q).tolist()
+            kw = {'vects': V} if kind == 'vects' else {'avect': V[0], 'bvect': V[1], 'cvect': V[2]}
+            if rng.random() < 0.6:
+                kw['origin'] = o
+        spec = {'kind': kind, 'via': via, 'regime': regime, 'kw': kw}
+    order, literal = gen_order(rng, spec['kw'])
+    if order:
+        spec['order'] = order
+    if literal:
+        spec['literal'] = True
+    return spec
+
+
+def _search_extreme_angles(ctx, rng, n):
+    """cells with one angle 0.004 .. 2 degrees off 0 or 180 degrees — each of alpha, beta, gamma, acute and obtuse, through every
+    parameter set, as first definition and as re-definition of an ordinary cell: the reported angle is the angle of the
+    vectors (exact atan2 clause: a cosine cannot tell 179.99 from 180, nor an arcsin the obtuse from the acute side), the
+    length / angle read-back rebuilds the cell (tilt signs included) wherever the rounding bound u cond^2 still resolves it."""
+    for it in range(n):
+        which = ('alpha', 'beta', 'gamma')[it % 3]
+        obtuse = (it // 3) % 2 == 0
+        kind = EXTREME_KINDS[(it // 6) % len(EXTREME_KINDS)]
+        regime = 'grid' if (it // 6) % 3 == 0 and kind != 'abc' else 'float'
+        spec = gen_extreme(rng, regime, which, obtuse, kind)
+        ctx.stats.case('oracle:extreme-angle', (which, obtuse, kind, it), sample={'spec': _short(spec)})
+        first, muts = spec, []
+        if rng.random() < 0.3:      # on an object that was an ordinary cell before (everything lazily computed warm)
+            first = gen_spec(rng, regime)
+            muts = [dict(spec, via='set' if spec['via'] == 'ctor' else spec['via'])]
+        try:
+            pts, rels = _place(rng, spec, regime, 3)
+        except Exception as e:  # noqa
+            ctx.violate(f"construct:{spec['kind']}", f'valid cell definition {_short(spec)} raised {type(e).__name__}: {e}',
+                        {'op': 'cell', 'spec': _short(spec), 'points': [], 'rels': [], 'mutations': []})
+            continue
+        _run_cell(ctx, first, pts, rels, muts, light=(it % 2 == 1), check_base=not muts)
+
+
 def search(ctx, broken):
     if ctx.disagreements:
         try:
@@ -3426,6 +3663,8 @@ def search(ctx, broken):
     rng = random.Random(ctx.seed * 7919 + 17)
     _search_redefinitions(ctx, rng, ctx.n(8, 160) * (2 if broken else 1))
     _search_types(ctx, random.Random(ctx.seed * 7919 + 18), ctx.n(1, 12))
+    _search_keyword_orders(ctx, random.Random(ctx.seed * 7919 + 21), ctx.n(1, 12))
+    _search_extreme_angles(ctx, random.Random(ctx.seed * 7919 + 22), ctx.n(96, 2400) * (2 if broken else 1))
     _search_scales(ctx, random.Random(ctx.seed * 7919 + 20), ctx.n(70, 1500) * (2 if broken else 1))
     _search_sign_patterns(ctx, random.Random(ctx.seed * 7919 + 19), ctx.n(4, 60) * (2 if broken else 1))
     N = ctx.n(60, 1200) * (3 if broken else 1)
